@@ -231,6 +231,14 @@ def translate(repo: Path) -> dict:
     _expect(joins and consts == len(joins) and all(j.replace(" ", "") == "os.path.join(self.path,b'packed-refs')" for j in joins),
             f"DiskRefsContainer: packed-refs must be located in the COMMON dir (os.path.join(self.path, b'packed-refs')), never through "
             f"the per-worktree resolver: {joins} ({consts} occurrences)")
+    pr = T.find_def(rf, "DiskRefsContainer.pack_refs")
+    loop = next((n for n in ast.walk(pr) if isinstance(n, ast.For) and ast.unparse(n.iter) == "self.allkeys()"), None)
+    _expect(loop is not None, "DiskRefsContainer.pack_refs: `for ref in self.allkeys()` not found")
+    tests = [" ".join(ast.unparse(st).split()) for st in loop.body]
+    i_wt = next((i for i, t in enumerate(tests) if t == "if is_per_worktree_ref(ref): continue"), None)
+    i_sel = next((i for i, t in enumerate(tests) if t.startswith("if all or ref.startswith(")), None)
+    _expect(i_wt is not None and i_sel is not None and i_wt < i_sel,
+            f"DiskRefsContainer.pack_refs: per-worktree refs must be skipped (is_per_worktree_ref test) before the selection: {tests}")
     rr_src = ast.unparse(T.find_def(rf, "RefsContainer.read_ref"))
     _expect("contents = self.read_loose_ref(refname)" in rr_src and "if not contents" in rr_src
             and "self.get_packed_refs().get(refname, None)" in rr_src, "RefsContainer.read_ref: loose-then-packed shape changed")
